@@ -1,6 +1,7 @@
 #!/bin/bash
 # seedrun.sh <seed-id> <check> [<check>...] : apply the seeded patch to /repo, run the checks (quick), restore /repo
 id=$1; shift
+export VERIF_EVIDENCE_DIR=/tmp/seed-evidence-$id
 patch=${SEEDDIR:-/tmp/seeded-out}/$id/patch.diff
 git -C /repo status --short | grep -q . && { echo "/repo is dirty"; exit 2; }
 git -C /repo apply $patch || { echo "patch does not apply"; exit 2; }
